@@ -990,6 +990,20 @@ def r_zxy_guard(ctx):
                 obs.append(Ob("R-ZXY-GUARD", fn, "conversion only for %s < 2^z" % nm, ok, "grid test on %s found: %s" % (nm, ok), e.loc()))
             ok_shift = facts.get("shift_guarded", True)
             obs.append(Ob("R-ZXY-GUARD", fn, "the grid bound 1 << z is only evaluated for z < 64", ok_shift, "shift evaluated under its own zoom guard: %s" % ok_shift, e.loc()))
+        # every shift by the zoom on the way (also inside helpers evaluated in place, also on the refusing paths) happens under z < 64
+        shifts = {}
+        for p in fa.paths:
+            for e in p.events:
+                if e.kind == "arith" and e.d.get("op") in ("<<",) and e.d.get("r") is not None and e.d["r"][0] != "c":
+                    amt = _strip_cast(unmut(e.d["r"]))
+                    K = guard_le_const(p, e.seq, amt, e)
+                    okk = K is not None and K < 64
+                    key = e.node.get("id")
+                    if key not in shifts or (shifts[key][0] and not okk):
+                        shifts[key] = (okk, K, e)
+        for key, (okk, K, e) in shifts.items():
+            obs.append(Ob("R-ZXY-GUARD", fn, "a shift by the zoom is evaluated only under z < 64", okk,
+                          "shift amount %s bounded by %s at the point of evaluation" % (tstr(_strip_cast(unmut(e.d["r"])))[:30], K), e.loc()))
         if n == 0:
             obs.append(Ob("R-ZXY-GUARD", fn, "conversion path", False, "no path converts coordinates", rel(f["loc"])))
             continue
